@@ -280,6 +280,24 @@ def step (s : St) (j : Json) : R (St × Json) := do
     | some bs => return (s, Json.mkObj [("doc", Json.arr (bs.map (fun b =>
         Json.arr #[Json.str b.1, Json.arr (b.2.map encARec).toArray])).toArray)])
     | none => return (s, Json.mkObj [("doc", Json.null)])
+  | "provn" =>
+    let c ← s.cont j "c"
+    return (s, Json.mkObj [("text", Json.str (s.h.provnDocument c))])
+  | "provn_rec" =>
+    let r ← s.recH j "r"
+    return (s, Json.mkObj [("text", Json.str (provnRecord (s.h.recCell r).r))])
+  | "spec_provn" =>
+    let text ← (← j.getObjVal? "text").getStr?
+    let hints ← match field? j "hints" with
+      | some a => (← a.getArr?).toList.mapM (fun e => do
+          let lex ← (← e.getObjVal? "lex").getStr?
+          let f ← decFloat (← e.getObjVal? "f")
+          pure (lex, f))
+      | none => pure []
+    match Prov.ProvNSpec.parseDocument hints text with
+    | some bs => return (s, Json.mkObj [("doc", Json.arr (bs.map (fun b =>
+        Json.arr #[Json.str b.1, Json.arr (b.2.map encARec).toArray])).toArray)])
+    | none => return (s, Json.mkObj [("doc", Json.null)])
   | "enc_xml" =>
     let c ← s.cont j "c"
     let ft ← (← j.getObjVal? "ft").getBool?
